@@ -28,6 +28,22 @@ def run_tool(tool, seed, n, extra=(), lift=None, timeout=3600, outdir=None, pige
     return json.loads(out[out.index("{"):])
 
 
+def peg_compile_fails(peg, flags):
+    """pigeon <flags> -o parser.go peg exits 0 AND `go build` of the result fails"""
+    d = tempfile.mkdtemp(prefix="pv.pegc.")
+    try:
+        open(os.path.join(d, "go.mod"), "w").write("module w\n\ngo 1.25.0\n")
+        p = subprocess.run([PIGEON] + list(flags) + ["-o", os.path.join(d, "parser.go"), peg], stdin=subprocess.DEVNULL,
+                           stdout=subprocess.PIPE, stderr=subprocess.PIPE, timeout=120)
+        if p.returncode != 0:
+            return False
+        q = subprocess.run(["go", "build", "./..."], cwd=d, env=core.goenv(True), stdin=subprocess.DEVNULL,
+                           stdout=subprocess.PIPE, stderr=subprocess.PIPE, timeout=600)
+        return q.returncode != 0
+    finally:
+        shutil.rmtree(d, ignore_errors=True)
+
+
 def keep_failure_file(prop, f):
     path = f.get("file")
     if path and os.path.exists(path):
@@ -75,14 +91,25 @@ def generic(prop, cfg, tier, seed, parts, extra_viol=(), extra_cov=None, extra_k
             rep("%s/%s" % (tool, f.get("kind", "failure")), f)
         if r.get("failure_count", 0) > len(r.get("failures") or []):
             nviol += r["failure_count"] - len(r["failures"])
-        # listed known findings of this tool: does the class still reproduce?
+        # listed known findings of this tool: does the class still reproduce? The replay uses a FIXED seed and size
+        # (independent of VERIF_SEED) so that the line is printed on every run while the finding is there.
         for lift, fid in lifts.items():
-            if fid not in lst:
+            if fid not in lst or lst[fid].get("witness", {}).get("kind") == "peg-compile":
                 continue
             try:
-                rr = run_tool(tool, seed, max(150, nq // 8), extra, lift=lift, timeout=900, pigeon=(tool != "pvopt"), prop=prop)
+                n_kf = int(lst[fid].get("witness", {}).get("n", max(150, nq // 8)))
+                rr = run_tool(tool, 1, n_kf, extra, lift=lift, timeout=900, pigeon=(tool != "pvopt"), prop=prop)
                 if rr.get("failure_count", 0) > 0:
                     kf.append("KNOWN-FINDING: property=%s %s %s" % (prop, fid, lst[fid]["what"]))
+            except Exception as e:
+                log("known-finding replay of %s failed: %s" % (fid, e))
+    # listed findings whose witness is a grammar file: pigeon accepts it (exit 0), the generated parser does not compile
+    for fid, f in sorted(lst.items()):
+        w = f.get("witness", {})
+        if w.get("kind") == "peg-compile":
+            try:
+                if peg_compile_fails(os.path.join(core.VERIF, w["file"]), w.get("flags", [])):
+                    kf.append("KNOWN-FINDING: property=%s %s %s" % (prop, fid, f["what"]))
             except Exception as e:
                 log("known-finding replay of %s failed: %s" % (fid, e))
     for v in extra_viol:
